@@ -192,7 +192,7 @@ func (env *Env) ctor(t Ty, parsed bool) px.Type {
 		// NewStringType(nil, "") answers the default String type; the type of a string literal (the
 		// only way to a vcStringType of the empty string) is what its PType() returns.
 		return types.WrapString(t.S[0]).PType()
-	case "enum":
+	case "enum", "enumraw":
 		return types.NewEnumType(append([]string{}, t.S...), t.CI)
 	case "pat":
 		rs := make([]*types.RegexpType, len(t.S))
